@@ -61,6 +61,8 @@ enum Out {
     Alien,
     /// the venue rejects with `AssetInvalid` naming an asset outside the manager's configuration (key echoed)
     ErrAsset,
+    /// the client reports the venue offline (`ConnectivityError::ExchangeOffline` naming the client's own id)
+    ErrOffline,
 }
 
 #[derive(Debug, Clone, Serialize, Deserialize, PartialEq)]
@@ -123,6 +125,7 @@ fn classify(ev: AccountStreamEvent, at_ms: u128) -> Option<Seen> {
                 OrderState::Inactive(InactiveOrderState::FullyFilled) => "filled",
                 OrderState::Inactive(InactiveOrderState::OpenFailed(OrderError::Connectivity(ConnectivityError::Timeout))) => "timeout",
                 OrderState::Inactive(InactiveOrderState::OpenFailed(OrderError::Rejected(_))) => "err",
+                OrderState::Inactive(InactiveOrderState::OpenFailed(OrderError::Connectivity(_))) => "err",
                 _ => "other",
             };
             Some(Seen { open: true, cid: o.key.cid.0.to_string(), exchange: exchange.index().max(o.key.exchange.index()), instr: o.key.instrument.index(), class, at_ms })
@@ -132,7 +135,7 @@ fn classify(ev: AccountStreamEvent, at_ms: u128) -> Option<Seen> {
                 Ok(_) => "ok",
                 Err(OrderError::Connectivity(ConnectivityError::Timeout)) => "timeout",
                 Err(OrderError::Rejected(_)) => "err",
-                Err(_) => "other",
+                Err(OrderError::Connectivity(_)) => "err",
             };
             Some(Seen { open: false, cid: r.key.cid.0.to_string(), exchange: exchange.index().max(r.key.exchange.index()), instr: r.key.instrument.index(), class, at_ms })
         }
@@ -180,6 +183,7 @@ fn run(case: &Case) -> Result<Outcome, V> {
                 Out::Err => ReplyKind::Err,
                 Out::Alien => ReplyKind::OkUnknownInstrument,
                 Out::ErrAsset => ReplyKind::ErrUnconfiguredAsset,
+                Out::ErrOffline => ReplyKind::ErrExchangeOffline,
             },
         ),
         _ => Reply::Never,
@@ -325,10 +329,13 @@ fn run(case: &Case) -> Result<Outcome, V> {
             (Out::Ok, _) | (Out::Alien, _) => "ok",
             (Out::Filled, true) => "filled",
             (Out::Filled, false) => "ok",
-            (Out::Err, _) | (Out::ErrAsset, _) => "err",
+            (Out::Err, _) | (Out::ErrAsset, _) | (Out::ErrOffline, _) => "err",
         };
         if r.out == Out::ErrAsset && r.delay_ms.map(|d| d < case.timeout_ms).unwrap_or(false) {
             out.cells.push("client_in_time:rejection_naming_unconfigured_asset");
+        }
+        if r.out == Out::ErrOffline && r.delay_ms.map(|d| d < case.timeout_ms).unwrap_or(false) {
+            out.cells.push("client_in_time:exchange_offline_error");
         }
         if s.class == "timeout" {
             out.by_timeout += 1;
@@ -451,7 +458,8 @@ fn gen_case(rng: &mut Rng, multi_thread: bool, small: bool) -> Case {
         let out = match rng.below(20) {
             0..=8 => Out::Ok,
             9..=12 => Out::Filled,
-            13..=17 => Out::Err,
+            13..=16 => Out::Err,
+            17 => Out::ErrOffline,
             18 => Out::ErrAsset,
             _ => Out::Alien,
         };
@@ -756,6 +764,7 @@ fn main() {
             "delay_equals_timeout(not_judged)",
             "request_timeout_unbounded:answered_by_client",
             "client_in_time:rejection_naming_unconfigured_asset",
+            "client_in_time:exchange_offline_error",
             "open_request",
             "cancel_request",
             "50_or_more_outstanding",
